@@ -165,11 +165,8 @@ def run(repo, chk):
         for p in opened:
             if not any("LinkStatus.Closed" in t for t, v in p.conds):
                 chk.bad("R-C02-1", "%s: every head-loss row is guarded by the closed/isolated test" % bname, loc(fn), found=p.label)
-        attrs = set(paths[0].updater_attrs())
-        for p in paths:
-            attrs &= set(p.updater_attrs())
-        chk.expect({"status", "_is_isolated"} <= attrs, "R-C02-1", "%s re-builds the row when status or _is_isolated changes" % bname, loc(fn),
-                   "updater.add(link, 'status'|'_is_isolated', ...) must be reached on every path", found=sorted(attrs))
+        req = {"status", "_is_isolated"} | ({"pump_curve_name"} if bname == "head_pump_headloss_constraint" else set())
+        B.check_updaters(chk, "R-C02-1", fn, bname, paths, req, loc(fn))
         # every non-closed path stores exactly one constraint under the link's name
         for p in opened:
             st = p.stores("m.%s[" % dictname)
@@ -329,8 +326,7 @@ def run(repo, chk):
             v, _ = canon(S(ex, vals[-1]))
             chk.expect(is_zero(v - ref()), "R-C02-4", "%s value equals the documented coefficient" % pname, loc(fn),
                        expected=str(ref()), found=str(v))
-            got = set(p.updater_attrs())
-            chk.expect(reads <= got, "R-C02-4", "%s re-computes when %s change" % (pname, sorted(reads)), loc(fn), expected=sorted(reads), found=sorted(got))
+        B.check_updaters(chk, "R-C02-4", fn, pname, paths, reads, loc(fn))
     chk.floor("R-C02-4", 10)
 
     # ---------------------------------------------------------------- R-C02-5 pumps
